@@ -120,6 +120,16 @@ func (c *FnCtx) specEnvAt(st *State, pos token.Pos) *SpecEnv {
 					return ev
 				}
 			}
+			// length of the sequence a range / iterator loop runs over (fixed when the loop starts): rlen<N>
+			if strings.HasPrefix(name, "rlen") {
+				if n, err := strconv.Atoi(name[4:]); err == nil {
+					for node, t := range c.rangeLen {
+						if c.loopOrd[node] == n {
+							return &Val{T: t, S: SInt}
+						}
+					}
+				}
+			}
 			// range index of an enclosing range loop: idx<N>
 			if strings.HasPrefix(name, "idx") {
 				if n, err := strconv.Atoi(name[3:]); err == nil {
